@@ -301,7 +301,7 @@ impl RefSlave {
             wd_on: false,
             sync: false,
             freeze: false,
-            inputs: (0..p.in_len).map(|i| 0x40 + i as u8).collect(),
+            inputs: (0..p.in_len).map(|i| 0x40u8.wrapping_add(i as u8)).collect(),
             outputs: vec![0; p.out_len],
             input_counter: 0,
             executed: 0,
